@@ -627,7 +627,8 @@ package analysis
 //@ fun ctxWF(c *context) bool = c != nil && c.newRefs != nil && c.resolved != nil && ctxRefsWF(c.newRefs)
 //@ ofun schKeysWF(m map[string]SchemaRef) bool = forall k in dom(m) :: len(k) >= 1
 //@ fun idxKeysWF(s *Spec) bool = refKeysWF(s.references.allRefs) && refKeysWF(s.references.schemas) && schKeysWF(s.allSchemas)
-//@ fun optsWF(opts *FlattenOpts) bool = opts != nil && opts.Spec != nil && opts.Spec.spec != nil && opts.flattenContext != nil && ctxWF(opts.flattenContext) && strfmt.Default != nil
+//@ fun optsBase(opts *FlattenOpts) bool = opts != nil && opts.Spec != nil && opts.Spec.spec != nil && strfmt.Default != nil
+//@ fun optsWF(opts *FlattenOpts) bool = optsBase(opts) && opts.flattenContext != nil && ctxWF(opts.flattenContext)
 
 //@ func (s *Spec) reload()
 //@   assumed
@@ -1783,11 +1784,12 @@ package analysis
 //@   loop 1: invariant optsWF(opts) && sch != nil
 //@   loop 2: invariant optsWF(opts) && sch != nil
 
+// (importExternalReferences creates the bookkeeping when its caller did not)
 //@ func importExternalReferences(opts)
 //@   aspect safe
-//@   requires optsWF(opts) && idxKeysWF(opts.Spec)
-//@   modifies heaps DOC, heaps FREFS, opts.flattenContext.warnings
-//@   ensures optsWF(opts)
+//@   requires optsBase(opts) && (opts.flattenContext != nil ==> ctxWF(opts.flattenContext)) && idxKeysWF(opts.Spec)
+//@   modifies heaps DOC, heaps FREFS, opts.flattenContext, opts.flattenContext.warnings
+//@   ensures optsWF(opts) && opts.Spec == old(opts.Spec) && opts.Spec.spec == old(opts.Spec.spec) && (old(opts.flattenContext) != nil ==> opts.flattenContext == old(opts.flattenContext)) && (old(opts.flattenContext) == nil ==> fresh(opts.flattenContext))
 //@   loop 1: modifies nothing
 //@   loop 2: modifies heaps DOC, heaps FREFS, opts.flattenContext.warnings
 //@   loop 3: modifies heaps FREFS
@@ -1797,11 +1799,13 @@ package analysis
 
 //@ func importReferences(opts)
 //@   aspect safe
-//@   requires optsWF(opts) && idxKeysWF(opts.Spec)
-//@   modifies heaps DOC, heaps INDEX, heaps FREFS, opts.flattenContext.warnings
-//@   ensures optsWF(opts) && idxKeysWF(opts.Spec) && optsSame(opts, old(opts.Spec), old(opts.Spec.spec), old(opts.flattenContext))
-//@   loop 1: modifies heaps DOC, heaps INDEX, heaps FREFS, opts.flattenContext.warnings
-//@   loop 1: invariant optsWF(opts) && idxKeysWF(opts.Spec) && optsSame(opts, old(opts.Spec), old(opts.Spec.spec), old(opts.flattenContext))
+//@   requires optsBase(opts) && (opts.flattenContext != nil ==> ctxWF(opts.flattenContext)) && idxKeysWF(opts.Spec)
+//@   modifies heaps DOC, heaps INDEX, heaps FREFS, opts.flattenContext, opts.flattenContext.warnings
+//@   ensures optsWF(opts) && idxKeysWF(opts.Spec) && opts.Spec == old(opts.Spec) && opts.Spec.spec == old(opts.Spec.spec) && (old(opts.flattenContext) != nil ==> opts.flattenContext == old(opts.flattenContext))
+//@   loop 1: modifies heaps DOC, heaps INDEX, heaps FREFS, opts.flattenContext, heap context
+//@   loop 1: invariant optsBase(opts) && (opts.flattenContext != nil ==> ctxWF(opts.flattenContext)) && idxKeysWF(opts.Spec) && opts.Spec == old(opts.Spec) && opts.Spec.spec == old(opts.Spec.spec) && (old(opts.flattenContext) != nil ==> opts.flattenContext == old(opts.flattenContext))
+//@   loop 1: invariant imported || err != nil ==> opts.flattenContext != nil
+//@   loop 1: invariant old(opts.flattenContext) == nil ==> opts.flattenContext == nil || fresh(opts.flattenContext)
 
 //@ func expand(opts)
 //@   aspect safe
@@ -1834,6 +1838,7 @@ package analysis
 //@   aspect safe
 //@   requires opts != nil && opts.Spec != nil && opts.Spec.spec != nil
 //@   modifies heaps DOC, heaps INDEX
+//@   ensures opts.Spec.spec == old(opts.Spec.spec)
 //@   loop 1: modifies heaps DOC, heaps INDEX
 //@   loop 1: invariant opts.Spec.spec == old(opts.Spec.spec)
 
